@@ -81,6 +81,8 @@ def segments(events):
                 elif k in ("req", "notif"):
                     raise Unsupported("server-to-client request (reverse call)")
             continue
+        if ev == "WireNote":
+            raise Unsupported("frame injected by the proxy (not a frame of the modelled peer)")
         if ev == "WireFault":
             f = str(e.get("fault", ""))
             if e.get("dir") == "c2s" and (f.startswith("cut-payload") or f.startswith("cut-last")):
